@@ -17,7 +17,9 @@ class Program:
         self.depths = list(range(0, self.maxd + 3)) if self.maxd <= 12 else sorted({0, 1, 2, self.maxd // 2, self.maxd - 1, self.maxd, self.maxd + 1, self.maxd + 2})
         self.rust_ty = S.rust_type(t)
         # RangeInclusive implements TreeKey + TreeSerialize only: such programs run the read-only operations
-        self.ro = S.has_kind(t, ("rangeincl",))
+        self.ro = S.has_kind(t, ("rangeincl",)) or S.has_gate(t, S.REF_RO)
+        # rc::Weak / sync::Weak have no TreeAny: everything but ref_any / mut_any
+        self.noany = (not self.ro) and S.has_gate(t, tuple(S.WEAK) + S.REF_NOANY)
 
 
 def make_program(pid, rng, depth=3):
@@ -369,7 +371,7 @@ def emit_shard(progs):
         builds = "\n".join("            %d => %s," % (i, S.rust_build(p.t, v)) for i, v in enumerate(p.states))
         ds = ", ".join(str(d) for d in p.depths)
         out.append("mod p%d {\n    use super::*;\n%s\n    pub type Top = %s;\n    pub fn build(state: usize, keep: &mut Vec<Box<dyn std::any::Any>>) -> Top {\n        match state {\n%s\n            _ => panic!(\"state\"),\n        }\n    }\n    %s!(case, Top, build, [%s]);\n}\n"
-                   % (p.pid, "\n".join("    " + l for d in defs for l in d.split("\n")), p.rust_ty, builds, "impl_case_ro" if p.ro else "impl_case", ds))
+                   % (p.pid, "\n".join("    " + l for d in defs for l in d.split("\n")), p.rust_ty, builds, "impl_case_ro" if p.ro else ("impl_case_noany" if p.noany else "impl_case"), ds))
     arms = "\n".join("            %d => p%d::case(&case)," % (p.pid, p.pid) for p in progs)
     out.append("""fn main() {
     std::panic::set_hook(Box::new(|_| {}));
